@@ -14,3 +14,7 @@ chk('C03', 'Hypothesis workbook generator vs independent workbook evaluator; dif
     'Random acyclic multi-book workbooks (all reference forms incl. names, array formulas, whole columns, unpopulated cells) are evaluated by an independent reference evaluator and compared cell by cell with the model loaded from a dict (several key orders) and from xlsx files (every book order, permuted sheet order); batches are re-run in child processes under other PYTHONHASHSEED values. Search, not enumeration: the space of workbooks is unbounded.',
     'Trusts xlref.wb on a restricted formula grammar; cells whose reference value is UNSURE are not asserted; hash seeds and orders are sampled (2-4 seeds, 3-5 orders per workbook).',
     'DESIGN.md 2/C03')
+chk('C15', 'Hypothesis workbook generator; differential partial-load vs full-load vs independent evaluator',
+    'Random multi-book workbooks on disk; every formula cell as a singleton output plus random sets of <= 4 outputs are loaded with from_ranges and compared with the fully loaded model and with the independent evaluator; a second finish()/complete() must not change graph or values.',
+    'Trusts xlref.wb on the restricted grammar and the full-load path as second oracle; unpopulated outputs not asserted.',
+    'DESIGN.md 2/C15')
